@@ -34,8 +34,10 @@ ASSUMPTIONS = ["d >= 2",
                "the whole quantity comes from the product over many cores; the `opposed` operands of mul_scalar have entries up to 2^+-900 "
                "with pair sums in the same window",
                "bulk values of modulus < 2^-20 are replaced by 2^-20 in the U(-1,1) family (no subnormal products at the edge of the window)",
-               "accuracy: Y1 and Y2 share the scale vector up to a monotone cumulative gap (a non-monotone gap > 2^511 between the partial "
-               "norms of the two blocks of Y1 - Y2 is not representable inside one block core)",
+               "accuracy: Y1 and Y2 share the scale vector up to a monotone cumulative gap; when the partial norms of the two blocks of "
+               "Y1 - Y2 swing past each other by hundreds of binary orders (independent bulk families drift apart in large d) the smaller "
+               "block is below the rounding level of the Gram state and the value is not asserted (rounding bound > 1e-3, label "
+               "cancellation_dominated) - this is inherent to representing Y1 - Y2 with block cores, not to the exponent bookkeeping",
                "Y2 of accuracy is not the zero tensor (the documented return for it is the undecided -1 # TODO)"]
 
 LO, HI = -480, 480            # per-core log2 scale window
@@ -422,13 +424,14 @@ def prop_scalar(case, ctx):
     ctx.nontrivial(nt)
     if nt:
         ctx.label("plain_overflows" if not math.isfinite(plain) or abs(plain) >= 1e290 else "plain_underflows")
-    # rescaling core j of Y1 by 2^s shifts p by s and nothing else (exact as long as step j has no subnormal terms)
+    # rescaling core j of Y1 by 2^s shifts p by s and nothing else.  Exact when step j has no subnormal terms; a term of the state that
+    # is 2^-122 below its maximum may still be flushed, which is invisible in the result only if no later step amplifies it: tol <= GATE.
     j = case["shift"]["jf"] % d
     t = int(s1[j] + s2[j])
     lo, hi = win(case)
     s = max(EXACT_LO - t, min(2 * hi - t, case["shift"]["s"]))
     s = max(-960 - int(s1[j]), min(960 - int(s1[j]), s))
-    if s != 0 and not ref.zero and t >= EXACT_LO and EXACT_LO <= t + s <= 2 * hi:
+    if s != 0 and not ref.zero and ref.tol <= GATE and t >= EXACT_LO and EXACT_LO <= t + s <= 2 * hi:
         v2, p2 = ctx.lib(teneva.mul_scalar, rescale(Y1, j, s), Y2, use_stab=True)
         near = abs(abs(v) - 1.0) <= 8 * EPS or abs(v2) < 1.0 or abs(v) < 1.0
         if near:        # floor(log2) at a power of two may round either way: the denoted value is still the same
@@ -493,7 +496,7 @@ def prop_norm(case, ctx):
     j = case["shift"]["jf"] % d
     lo, hi = win(case)
     sh = max(EXACT_LO // 2 - int(s[j]), min(hi - int(s[j]), case["shift"]["s"]))
-    if sh != 0 and not ref.zero and 2 * int(s[j]) >= EXACT_LO and EXACT_LO <= 2 * (int(s[j]) + sh) <= 2 * hi:
+    if sh != 0 and not ref.zero and ref.tol <= GATE and 2 * int(s[j]) >= EXACT_LO and EXACT_LO <= 2 * (int(s[j]) + sh) <= 2 * hi:
         z2, q2 = ctx.lib(teneva.norm, rescale(Y, j, sh), use_stab=True)
         if abs(float(z) - 1.0) <= 8 * EPS or float(z2) < 1.0 or float(z) < 1.0:
             ctx.check(abs(q2 - q - sh) <= 1 and abs(float(z2) * 2.0 ** (q2 - q - sh) - float(z)) <= 4 * EPS * float(z),
@@ -600,8 +603,9 @@ def prop_accuracy(case, ctx):
     j = case["shift"]["jf"] % d
     lo, hi = win(case)
     a, b = int(min(s1[j], s2[j])), int(max(s1[j], s2[j]))
-    sh = max(lo - a, min(hi - b, case["shift"]["s"])) if lo - a <= hi - b else 0
-    if sh != 0:
+    sh = max(EXACT_LO // 2 - a, min(hi - b, case["shift"]["s"])) if EXACT_LO // 2 - a <= hi - b else 0
+    # exact only if no block of the Gram state of Y1 - Y2 is flushed at step j and later amplified (bounded by the rounding bound A.tol)
+    if sh != 0 and 2 * a >= EXACT_LO and A.tol <= GATE and B.tol <= GATE:
         acc2 = float(ctx.lib(teneva.accuracy, rescale(Y1, j, sh), rescale(Y2, j, sh)))
         if acc2 != acc:
             # floor(log2) within an ulp of a power of two may move one factor of 2 between mantissa and exponent
